@@ -158,7 +158,7 @@ Definition changed (refs cur : list val) : Prop :=
 (* what the model-only payload of a pending resumption promises *)
 Definition wake_ok (t : Q) (ph : phase) (w : wake) (g : ghost) : Prop :=
   match w with
-  | WkFor q => (t == g_t0 g + q)%Q /\ ph = AFTER
+  | WkFor q => (t == g_t0 g + uQ q)%Q /\ ph = AFTER
   | WkChange m => changed (g_refs g) (g_cur g) /\ ph = AFTER
   | _ => True
   end.
@@ -685,7 +685,7 @@ Proof. intros. unfold simulate. simpl. rewrite <- in_rev. tauto. Qed.
 
 Lemma waitfor_exact_proof : forall cfg procs fiber until tb fuel t ph mt ro pid q g,
   In (LProc t ph mt ro pid (AWake (WkFor q) g)) (res_log (simulate cfg procs fiber until tb fuel)) ->
-  (t == g_t0 g + q)%Q /\ ph = AFTER.
+  (t == g_t0 g + uQ q)%Q /\ ph = AFTER.
 Proof.
   intros cfg procs fiber upto tb fuel t ph mt ro pid q g H. apply simulate_log_in in H.
   exact (i2_log _ (run_inv2 _ _ _ _ _ _) _ H).
